@@ -28,6 +28,10 @@ def observe(jp, lit: str):
     the decoded name is taken as a hint from the compiled selector and confirmed by
     selecting a member of that name and by comparing a string of that value."""
     q = f"$[{lit}]"
+    # other environments (a differently configured sibling, one built on a more permissive parser_class) see the text first:
+    # what they make of a literal is their own business
+    if len(q) < 300:
+        impl._sibling_first(jp, None, q)
     try:
         c = jp.compile(q)
     except jp.JSONPathError as err:
